@@ -222,6 +222,10 @@ func TestC16Route(t *testing.T) {
 			chs = append(chs, ch)
 		}
 		settle()
+		if len(chs) == 0 {
+			f.tr.Shutdown(bg)
+			return
+		}
 		fire := func(desc string, want []expect, fn func()) {
 			n := f.ev.Len()
 			p, val, stack := vf.Recover(fn)
